@@ -137,6 +137,7 @@ func cmdCheck(args []string) int {
 	run := newRun(ld, &o)
 	code := run.execute()
 	run.loadSecs = loadSecs
+	run.summary(code, time.Since(t0).Seconds())
 	if !*noEvidence {
 		run.writeEvidence(time.Since(t0).Seconds())
 	}
@@ -728,4 +729,25 @@ var solverVerCache map[string]string
 
 func solverVersions(cross bool) map[string]string {
 	return map[string]string{"z3": "4.8.12 (/usr/bin/z3, deciding)", "z3-new": "5.1.0 (cross-check)", "cvc5": "1.0.x (cross-check)"}
+}
+
+func (r *Run) summary(code int, wall float64) {
+	total, triv, unsat, sat, other := 0, 0, 0, 0, 0
+	for _, jr := range r.results {
+		for _, ob := range jr.Obls {
+			total++
+			switch ob.Status {
+			case "discharged-by-simplification":
+				triv++
+			case "unsat":
+				unsat++
+			case "sat":
+				sat++
+			default:
+				other++
+			}
+		}
+	}
+	fmt.Printf("gosmx: property=%s tier=%s cases=%d obligations=%d (folded=%d unsat=%d sat=%d inconclusive=%d) known-findings=%d violations=%d problems=%d wall=%.1fs exit=%d\n",
+		r.o.Prop, r.o.Tier, len(r.results), total, triv, unsat, sat, other, len(r.findings), len(r.violations), len(r.problems), wall, code)
 }
